@@ -54,7 +54,7 @@ def run(ctx, res):
     for n in T.nodes(b["tree"], "struct"):
         if T.strip_generics(n["res"].get("path") or "").endswith("tokenizer::Token"):
             lits.append(n)
-    res.floor("C07.R1", "Token literals in tokenize", len(lits), 3)
+    res.floor("C07.R1", "Token literals in tokenize", len(lits), 2)
     for i, lit in enumerate(lits):
         f = {x["name"]: x["e"] for x in lit["fields"]}
         tag = "token%d" % i
@@ -142,7 +142,7 @@ def run(ctx, res):
             else:
                 res.add(Finding("C07.R2", fn, "tandem:" + ";".join(sorted(sum(kinds.values(), []))), "byte and character cursors are not updated together: %s" % kinds, loc=T.loc(blk)))
     res.floor("C07.R2", "cursor update blocks", tandem, 1)
-    res.floor("C07.R1", "unit sinks judged", nsinks, 14)
+    res.floor("C07.R1", "unit sinks judged", nsinks, 10)
     # R4 who may construct + returned value
     others = []
     for bd in P.user_bodies():
